@@ -6,6 +6,7 @@ import (
 	"io/ioutil"
 	"log"
 	"math/rand"
+	"reflect"
 	"sort"
 	"strings"
 	"time"
@@ -42,6 +43,7 @@ func c16G(rng *rand.Rand, withMailmap bool) string {
 		proper := []string{"Annette", "Robert", "Carl C", "Dee"}
 		pmails := []string{"ann@corp", "bob@corp", "a@x", "d@y"}
 		var lines []string
+		wantMM := map[string]object.Signature{} // what the four record forms of git's mailmap mean, later records win
 		mmChain = false
 		srcs, tgts := map[string]int{}, map[string]bool{}
 		note := func(src []string, tgt []string) {
@@ -71,24 +73,42 @@ func c16G(rng *rand.Rand, withMailmap bool) string {
 			case 0:
 				lines = append(lines, fmt.Sprintf("%s <%s> <%s>", pn, pm, cmail))
 				note([]string{cmail}, []string{pn, pm})
+				wantMM[cmail] = object.Signature{Name: pn, Email: pm}
 			case 1:
 				lines = append(lines, fmt.Sprintf("%s <%s> %s <%s>", pn, pm, cn, cmail))
 				if cn != "" {
 					note([]string{cmail, cn}, []string{pn, pm})
+					wantMM[cn] = object.Signature{Name: pn, Email: pm}
 				} else {
 					note([]string{cmail}, []string{pn, pm})
 				}
+				wantMM[cmail] = object.Signature{Name: pn, Email: pm}
 			case 2:
 				lines = append(lines, fmt.Sprintf("%s <%s>", pn, cmail))
 				note([]string{cmail}, []string{pn})
+				wantMM[cmail] = object.Signature{Name: pn}
+				wantMM[pn] = object.Signature{Name: pn}
 			case 3:
 				lines = append(lines, fmt.Sprintf("<%s> <%s>", pm, cmail))
 				note([]string{cmail}, []string{pm})
+				wantMM[cmail] = object.Signature{Email: pm}
 			default:
 				lines = append(lines, "# comment", "")
 			}
 		}
+		if rng.Intn(2) == 0 {
+			// the same records with tabs or runs of blanks between the fields (git accepts any white space there)
+			sep := []string{"\t", "  ", " \t "}[rng.Intn(3)]
+			for i, l := range lines {
+				if !strings.HasPrefix(l, "#") {
+					lines[i] = strings.Replace(strings.Replace(l, " <", sep+"<", -1), "> ", ">"+sep, -1)
+				}
+			}
+		}
 		mailmapText = strings.Join(lines, "\n") + "\n"
+		if got := identity.ParseMailmap(mailmapText); !reflect.DeepEqual(got, wantMM) {
+			return fmt.Sprintf("ParseMailmap(%q) = %v, the records mean %v", mailmapText, got, wantMM)
+		}
 		bo := st.NewEncodedObject()
 		bo.SetType(plumbing.BlobObject)
 		w, _ := bo.Writer()
